@@ -32,6 +32,11 @@ def rule_tables(ck: Check, repo: Repo, folder: Folder) -> None:
     ck.trust("stdlib re applied to the folded reader constants and schematic notices generated from the folded"
              " writer table (constants against constants; no repository code runs)")
     holders = ["Jane Doe", "Example Corp. <https://example.com>", "Ünïcode Wörks & Sons, Inc.", "a"]
+    if ck.tier == "thorough":
+        holders += ["J. R. \"Bob\" Dobbs", "Jane Doe <jane@example.com> and others", "The Foo Authors (see AUTHORS)", "Team #42",
+                    "contributors to foo-bar", "X", "Doe, Jane", "O'Neil & Söhne", "jane@example.com", "https://example.com/people",
+                    "Free Software Foundation Europe e.V.", "Acme Inc., a Delaware corporation", "foo (bar) baz", "Jane Doe, 2nd",
+                    "ACME — Research", "Frédéric Müller"]
     years = [(None, ""), ("2020", "2020 "), ("2019-2020", "2019-2020 "), ("2019 - 2020", "2019 - 2020 "),
              ("2019- 2020", "2019- 2020 "), ("2019 -2020", "2019 -2020 ")]
     loc = repo.loc(repo.module_assign(CP, "_COPYRIGHT_PREFIXES"))
